@@ -159,3 +159,13 @@ pub const MAX_COMMIT_QUEUE_BYTES: usize = 64;
 pub const MAX_LOG_QUEUE_BYTES: i64 = 512;
 #[cfg(pdb_verif_scaled)]
 pub const MAX_LOG_FILES: usize = 1;
+
+pub fn constants() -> Constants {
+	Constants {
+		sizes: crate::column::verif_sizes(),
+		btree_order: crate::btree::verif_order(),
+		index_meta_size: 16 * 1024,
+		index_chunk_len: 512,
+		multipart_entry_size: 4096,
+	}
+}
